@@ -16,3 +16,4 @@ open PgmVerif
 #print axioms PgmVerif.ravel_unravel
 #print axioms PgmVerif.C04_scalar_ops
 #print axioms PgmVerif.C04_scalar_neutral
+#print axioms PgmVerif.C04_normalize_scale
